@@ -11,7 +11,9 @@ import (
 // paths, ties in code lines, include-ext filters, top sizes, four ways of passing DIR.
 
 var ordinaryDirs = []string{"east", "web", "pkg", "pkg2", "src", "docs", "lib", "core", "my dir", "v1.2", "lib.json",
-	"Apps", ".mvn", "a-b", "x_y", "données", "t", "tree", "test", "e2e", "w", ".github", ".ideas", "coca_reporter_old", "git"}
+	"Apps", ".mvn", "a-b", "x_y", "données", "t", "tree", "test", "e2e", "w", ".github", ".ideas", "coca_reporter_old", "git",
+	// names a CSV writer has to quote
+	"web,api", "the \"old\" one"}
 var ignoredDirs = []string{".git", ".idea", "coca_reporter", ".svn", ".hg"}
 var fileStems = []string{"A", "Main", "util", "x1", "test_a", "Bee", "index", "a.b", "tree", "east", "w", "t2", "Zed", "e", "re"}
 var subPaths = []string{"", "", "", "sub/", "a/b/", "east/", "t/", "inner dir/"}
